@@ -183,6 +183,27 @@ def run(chk, orch):
             if gk not in gold_keys:
                 orch.submit(0, "scenarios:pipeline", common.job_args(w0, {}, common.GOLDEN_CELL), tag=("g", gk))
                 gold_keys[gk] = None
+        # the same annotation, which lacks the gene/transcript records of some genes, converted WITH and WITHOUT --complete_genedb by
+        # runs that start together: whoever registers first must not decide for the other (own seeded stream)
+        for k in range(n + 100, n + 100 + (8 if quick else 24)):
+            w0 = dict(TINY, seed=frng.randrange(1 << 20), gtf_meta=2, genes_per_chr=3)
+            acts = [{"wl": 0, "opts": {"complete_genedb": True}, "out": "A"}, {"wl": 0, "opts": {}, "out": "B"}]
+            if k % 2:
+                acts.reverse()
+            if k % 4 >= 2:
+                acts.append({"wl": 0, "opts": {"complete_genedb": bool(k % 8 >= 4)}, "out": "C"})
+            steps = [{"run": acts}]
+            sched = {"policy": frng.choice(POLICIES), "seed": frng.randrange(1 << 20), "pct_d": frng.choice([1, 1, 2, 3]),
+                     "horizon": frng.choice([30, 60, 120])}
+            wls = [{"spec": w0}]
+            a = {"workloads": wls, "steps": steps, "sched": sched}
+            orch.submit(0, "scenarios:cache_session", a, tag=("s", k), timeout=120)
+            sessions[k] = (wls, steps, sched, "mixed_complete", a)
+            for act in acts:
+                gk = json.dumps([w0, act.get("opts") or {}], sort_keys=True)
+                if gk not in gold_keys:
+                    orch.submit(0, "scenarios:pipeline", common.job_args(w0, dict(act.get("opts") or {}), common.GOLDEN_CELL), tag=("g", gk))
+                    gold_keys[gk] = None
         # second system: the index / BED / alignment caches of the aligner path, driven function by function with stub artefacts
         nk = 64 if quick else 256
         cfn = {}
